@@ -92,6 +92,10 @@ type Run struct {
 
 	findings []Finding
 	replay   *Replay
+
+	child            *childSpec
+	childExtra       map[string]float64
+	childViolCapture bool
 }
 
 func NewRun(id, tier string, seed int64) *Run {
@@ -258,6 +262,13 @@ func (t *T) FailClass(kind, class string, detail map[string]interface{}) {
 		return
 	}
 	v := Violation{Kind: kind, Family: t.Family, Index: t.Index, Detail: detail}
+	if r.childViolCapture {
+		// child process: hand the violation to the parent
+		r.mu.Lock()
+		r.viols = append(r.viols, v)
+		r.mu.Unlock()
+		return
+	}
 	dir := filepath.Join(Root, "replay")
 	os.MkdirAll(dir, 0o755)
 	name := fmt.Sprintf("%s-%s-%d-%d.json", r.ID, r.Tier, r.Seed, n)
@@ -334,6 +345,9 @@ func (r *Run) Parallel(family string, n int64, fn func(t *T)) {
 
 // ParallelW is Parallel with an explicit worker count.
 func (r *Run) ParallelW(family string, n int64, workers int, fn func(t *T)) {
+	if r.child != nil {
+		return // child processes run only their own isolated family
+	}
 	r.mu.Lock()
 	r.families[family] += n
 	r.mu.Unlock()
